@@ -123,7 +123,8 @@ def observe(m, ab, slots):
 
 
 def snapshot(m, ab):
-    return (m._to_dict(), [[id(x) for x in a['obj'].associations] for a in ab.assets],
+    import copy as _copy
+    return (_copy.deepcopy(m._to_dict()), [[id(x) for x in a['obj'].associations] for a in ab.assets],
             [[(id(a), list(s)) for a, s in t['obj'].entry_points] for t in ab.attackers])
 
 
